@@ -10,6 +10,7 @@ import ALV.Lemmas.C06TwoCalls
 import ALV.Lemmas.C06TwoCallsFull
 import ALV.Lemmas.C06Expr
 import ALV.Lemmas.C06Hub
+import ALV.Lemmas.C06HubNest
 import ALV.Lemmas.C06Src
 import ALV.Common.Audit
 
@@ -837,20 +838,140 @@ theorem hub_loop_step (srcs : Nat → Src K) (nsrc : Nat) (b as : List (HC K)) (
         loopH srcs nsrc b as a0 zero (x :: xs) hx hy st = ([], [], st1, .raise)) :=
   loopH_step srcs nsrc b as a0 zero x xs hx hy st
 
+/-- **C06.12h** (`hub_nested_reads_once_rounds`, reads-once for ANY nesting of hubs): the coefficient
+iterators form a LINEAR forest — every tee group has one upstream (`It.Cons up`), no hub sits on itself
+(`WF`), and every source / every hub copy is written in exactly one place, once (`Lin`, `Stat`: the
+tokens `It.expo` of the coefficient list and of every upstream are pairwise disjoint and duplicate
+free) — hubs over products of hub copies, copies of copies, to any depth.  Then after `n` successful
+evaluations of the generated expression EVERY source written anywhere in the coefficients has been
+pulled exactly `n` times, and every other source never. -/
+theorem hub_nested_reads_once_rounds (srcs : Nat → Src K) (up : Nat → It K) (G : Nat → Prop)
+    (L : Lin up G) (cs : List (HC K)) (wf : ∀ c ∈ cs, c.WF) (cons : ∀ c ∈ cs, c.Cons up)
+    (hs : Stat up G (groupsR cs) (expoR cs)) (n : Nat) (st' : St K)
+    (h : roundsOk srcs cs n St.init st') :
+    (∀ k ∈ srcsR cs, st'.pulls k = n) ∧ (∀ k, k ∉ srcsR cs → st'.pulls k = 0) :=
+  rounds_nested_reads_once srcs L cs wf cons hs n st' h
+
+/-- … one round of it, from any round boundary reached: the lockstep step (every token of the
+coefficient list goes from `n` to `n + 1`, every group's buffer with it, nothing else moves) -/
+theorem hub_nested_round_lockstep (srcs : Nat → Src K) (up : Nat → It K) (G : Nat → Prop)
+    (L : Lin up G) (n : Nat) (cs : List (HC K)) (st st' : St K) (vs : List K)
+    (wf : ∀ c ∈ cs, c.WF) (cons : ∀ c ∈ cs, c.Cons up) (hs : Stat up G (groupsR cs) (expoR cs))
+    (hp : Pre up n (groupsR cs) (expoR cs) st) (hr : round srcs cs st = (st', .ok vs)) :
+    Step up n (groupsR cs) (expoR cs) st st' :=
+  round_lock srcs L n cs st st' vs wf cons hs hp hr
+
+/-- **C06.12i** (`hub_nested_reads_once_partial`, the PENDING statement on the whole `callH`, with the
+linearity of the coefficient list `callCoefs num den` — what `filt(x)` hands to the generated loop after
+`Poly` arithmetic and the Stream-gain rewriting — as a hypothesis instead of derived from "every leaf
+Stream written once"): row `j` of the pull trace is `0` or `j + 1` for every source. -/
+theorem hub_nested_reads_once_partial (srcs : Nat → Src K) (nsrc : Nat) (num den : PE K) (zero : K)
+    (xs : List K) (up : Nat → It K) (G : Nat → Prop) (L : Lin up G)
+    (wf : ∀ c ∈ callCoefs num den, c.WF) (cons : ∀ c ∈ callCoefs num den, c.Cons up)
+    (hs : Stat up G (groupsR (callCoefs num den)) (expoR (callCoefs num den))) :
+    ∀ (j : Nat) (row : List Nat), (callH srcs nsrc num den zero xs).trace[j]? = some row →
+      ∀ (k v : Nat), row[k]? = some v → v = 0 ∨ v = j + 1 := by
+  intro j row h k v hv
+  rcases callH_trace srcs nsrc num den zero xs j row h with rfl | ⟨st1, h1, rfl⟩
+  · left
+    simp only [List.getElem?_map] at hv
+    cases hk : (List.range nsrc)[k]? with
+    | none => rw [hk] at hv; simp at hv
+    | some k' => rw [hk] at hv; simp only [Option.map_some, Option.some.injEq] at hv; exact hv.symm
+  · obtain ⟨a, b⟩ := rounds_nested_reads_once srcs L _ wf cons hs (j + 1) st1 h1
+    simp only [List.getElem?_map] at hv
+    cases hk : (List.range nsrc)[k]? with
+    | none => rw [hk] at hv; simp at hv
+    | some k' =>
+      rw [hk] at hv
+      simp only [Option.map_some, Option.some.injEq] at hv
+      subst hv
+      by_cases hm : k' ∈ srcsR (callCoefs num den)
+      · exact Or.inr (a k' hm)
+      · exact Or.inl (b k' hm)
+
+/-- non-vacuity, depth 2 (`g * p * q`: hubs 1 and 2 sit over products of copies of hub 0; `nestUp`, `nestCs`,
+`nestLin` in `Lemmas/C06HubNest.lean`) -/
+example : callCoefs (.mul (.mul (.poly [((0 : Int), HC.s (It.src 0))]) (.poly [(0, HC.c (1 : Rat)), (1, HC.c 1)]))
+      (.poly [(0, HC.c 1), (1, HC.c 2)])) (.poly [(0, HC.c 1)]) = nestCs := by decide +kernel
+example (srcs : Nat → Src ℚ) (n : Nat) (st' : St ℚ) (h : roundsOk srcs nestCs n St.init st') :
+    st'.pulls 0 = n :=
+  (hub_nested_reads_once_rounds srcs nestUp (fun g => g < 3) nestLin nestCs
+    (by intro c hc; simp [nestCs] at hc; rcases hc with rfl | rfl | rfl <;>
+          simp [HC.WF, It.WF, It.groups, nestUp])
+    (by intro c hc; simp [nestCs] at hc; rcases hc with rfl | rfl | rfl <;>
+          simp [HC.Cons, It.Cons, nestUp])
+    (by simp [Stat, nestCs, groupsR, expoR, HC.groups, HC.expo, It.groups, It.expo, nestUp])
+    n st' h).1 0 (by simp [nestCs, srcsR, HC.srcs, It.srcs, nestUp])
+
+/-- **C06.12j** (`hub_nested_reads_once_checked`): linearity of a coefficient list is DECIDABLE
+(`Linear`: the upstream table is read off the list itself, every quantifier is bounded by the groups
+written in it).  So for every filter expression the PENDING statement below follows from ONE evaluation:
+`Linear (callCoefs num den)`, which `decide` discharges for any concrete `num`, `den`. -/
+theorem hub_nested_reads_once_checked (srcs : Nat → Src K) (nsrc : Nat) (num den : PE K) (zero : K)
+    (xs : List K) (hl : Linear (callCoefs num den)) :
+    ∀ (j : Nat) (row : List Nat), (callH srcs nsrc num den zero xs).trace[j]? = some row →
+      ∀ (k v : Nat), row[k]? = some v → v = 0 ∨ v = j + 1 :=
+  hub_nested_reads_once_partial srcs nsrc num den zero xs (upOf (callCoefs num den))
+    (· ∈ groupsR (callCoefs num den)) hl.2.1.lin (fun c hc => (hl.1 c hc).1) (fun c hc => (hl.1 c hc).2)
+    ⟨fun g hg => hg, hl.2.2.1, hl.2.2.2⟩
+
+/-- non-vacuity: `g * p * q` (hubs over products of hub copies) -/
+example : Linear (callCoefs (.mul (.mul (.poly [((0 : Int), HC.s (It.src 0))]) (.poly [(0, HC.c (1 : Rat)), (1, HC.c 1)]))
+      (.poly [(0, HC.c 1), (1, HC.c 2)])) (.poly [(0, HC.c 1)])) := by decide +kernel
+/-- the Stream-gain path (`inv_gain` under a copy of a copy) -/
+example : Linear (callCoefs (.poly [((0 : Int), HC.c (1 : Rat))])
+      (.poly [(0, HC.s (It.src 0)), (1, HC.c 2), (2, HC.c 3)])) := by decide +kernel
+/-- six Streams: `(s0 + s1 z^-1) * (s2 + 2 z^-1) / s3` over `(s4 + 2 z^-1) * (1 + s5 z^-1)` — products of Stream
+polynomials, division by a Stream, Stream gain -/
+example : Linear (callCoefs
+      (.divs (.mul (.poly [((0 : Int), HC.s (It.src 0)), (1, HC.s (It.src 1))])
+                   (.poly [(0, HC.s (It.src 2)), (1, HC.c (2 : Rat))])) (HC.s (It.src 3)))
+      (.mul (.poly [(0, HC.s (It.src 4)), (1, HC.c 2)]) (.poly [(0, HC.c 1), (1, HC.s (It.src 5))]))) := by
+  decide +kernel
+/-- depth 3, six Streams, a negative power, a key written twice, numerator `((s0 p) (s1 + z^-1)) q` over the
+Stream-gain denominator `(s2 + 2 z^-1 + s3 z^-1) ((1 + s4 z^-1) / s5)` -/
+example : Linear (callCoefs
+    (.mul (.mul (.mul (.poly [((0 : Int), HC.s (It.src 0))]) (.poly [(0, HC.c (1 : Rat)), (1, HC.c 1)]))
+                (.poly [(0, HC.s (It.src 1)), (1, HC.c 1)]))
+          (.poly [(0, HC.c 1), (1, HC.c 2), (-1, HC.c 3)]))
+    (.mul (.poly [(0, HC.s (It.src 2)), (1, HC.c 2), (1, HC.s (It.src 3))])
+          (.divs (.poly [(0, HC.c 1), (1, HC.s (It.src 4))]) (HC.s (It.src 5))))) := by
+  decide +kernel
+/-- the hypothesis is not empty talk: the SAME Stream object stored twice (C06.12e) is not linear -/
+example : ¬ Linear ([HC.s (It.src 0), HC.s (It.src 0)] : List (HC Rat)) := by decide +kernel
+
 -- PENDING
 /-- PENDING (not proved): reads-once for NESTED hubs, on the whole call.  For every filter whose
 polynomials are built by `Poly` arithmetic (`*`, `/ Stream`) from leaf Streams, every Stream object
 written once, any depth — products of products put a hub over a product of hub copies, the Stream-gain
 rewriting puts `inv_gain` under a copy of a copy — after output `j + 1` every source has been pulled
 exactly `j + 1` times (0 if no coefficient of the filter contains it).  Proved: the invariant "buffer
-length = max over copies" for any nesting (C06.12a), and the full statement for hubs that sit directly
-on their source (C06.12c/d); measured on the real code for nested shapes by the entry hub (where this
+length = max over copies" for any nesting (C06.12a); the full statement for hubs that sit directly on
+their source (C06.12c/d); and THIS statement for any nesting whenever the coefficient list `callCoefs num
+den` is a linear forest (C06.12h/i), which is decidable (C06.12j: one `decide` per concrete filter).  What
+is left: that `Poly` arithmetic (`mulHub`, `divHub`, `gainHub`,
+`denseH`) on leaf Streams written once only builds linear forests (a statement about lists, no `next`
+in it; checked by `decide` on the depth-2 / depth-3 / Stream-gain shapes above; `hub_nested_reads_once_reduced`
+is the machine-checked reduction.  Proof plan: thread `Good up hi ls (ctx ++ coefficients)` — `Lin up (· < hi)`,
+elementwise `WF` / `Cons up`, `(expoR _).Nodup`, no top token in any upstream, sources within the leaves `ls` —
+through `PE.build` with the context `ctx` of polynomials built before; `thub` of a top coefficient `e` is
+`up := upd up hi e`; `accum` permutes `expoR`; the double loop of `mulHub` uses copy `(γ_i1, i2)` and
+`(δ_i2, i1)` once each; `denseH` / `filter` only drop coefficients); measured on the real code for nested shapes by the entry hub (where this
 very statement is also evaluated on every generated input). -/
 def hub_nested_reads_once_PENDING : Prop :=
   ∀ (srcs : Nat → Src K) (nsrc : Nat) (num den : PE K) (zero : K) (xs : List K),
     num.Leafy → den.Leafy → (num.leafs ++ den.leafs).Nodup →
     ∀ (j : Nat) (row : List Nat), (callH srcs nsrc num den zero xs).trace[j]? = some row →
       ∀ (k v : Nat), row[k]? = some v → v = 0 ∨ v = j + 1
+
+/-- the PENDING statement is REDUCED (machine-checked) to a statement about lists with no `next`, no
+state and no trace in it: "`Poly` arithmetic on leaf Streams written once builds a linear forest" -/
+theorem hub_nested_reads_once_reduced
+    (builder_linear : ∀ (num den : PE K), num.Leafy → den.Leafy → (num.leafs ++ den.leafs).Nodup →
+      Linear (callCoefs num den)) : hub_nested_reads_once_PENDING (K := K) :=
+  fun srcs nsrc num den zero xs hn hd hnd =>
+    hub_nested_reads_once_checked srcs nsrc num den zero xs (builder_linear num den hn hd hnd)
 
 /-- non-vacuity: `Stream(repeat(1/2, 3)) * (1 + z^-1)` — `Poly.__mul__` makes a hub with two copies -/
 example : (mulHub [((0 : Int), HC.s (It.src 0))] [(0, HC.c (1 : Rat)), (1, HC.c 1)] 0).1
